@@ -6,8 +6,9 @@ builds an owned value or passes a borrow through (read from the source text)."""
 import json, os, re, subprocess, sys
 
 REPO = os.environ.get("VERIF_REPO", "/repo")
-OUT = "/verif/coq/gen/ApiSig.v"
-TARGET = "/verif/.cache/doc-target"
+_ROOT = os.path.dirname(os.path.dirname(os.path.abspath(__file__)))
+OUT = os.path.join(_ROOT, "coq", "gen", "ApiSig.v")
+TARGET = os.path.join(_ROOT, ".cache", "doc-target")
 LOCAL_TYPES = ["Tx", "Bucket", "Cursor", "Range", "Buckets", "KVPairs", "Data", "KVPair", "BucketName", "Bytes", "DB", "OpenOptions", "Error"]
 
 
